@@ -102,12 +102,12 @@ type hijackWriter struct {
 	h  http.Header
 }
 
-func (w *hijackWriter) Header() http.Header { return w.h }
+func (w *hijackWriter) Header() http.Header         { return w.h }
 func (w *hijackWriter) Write(p []byte) (int, error) { return w.c.Write(p) }
 func (w *hijackWriter) WriteHeader(statusCode int) {
 	res := http.Response{StatusCode: statusCode, ProtoMajor: 1, ProtoMinor: 1, Header: w.h}
 	var buf bytes.Buffer
-	res.Write(&buf) //nolint:errcheck
+	res.Write(&buf)        //nolint:errcheck
 	w.c.Write(buf.Bytes()) //nolint:errcheck
 }
 func (w *hijackWriter) Hijack() (net.Conn, *bufio.ReadWriter, error) {
